@@ -380,3 +380,18 @@ Theorem C16_tie_gen_conservation : forall (ops : list op) (s : st),
   buf s ++ arrived_run s ops = consumed_run s ops ++ buf s'.
 Proof. intros ops s. cbv zeta. rewrite grun_eq_run. apply buf_conservation. Qed.
 Print Assumptions C16_tie_gen_conservation.
+
+(* the loops of the regenerated code terminate within the model's own bound (one unit of fuel per iteration, fuel =
+   1 + number of chunks + number of bytes the wrapped stream still holds): no call of the machine that runs the
+   regenerated programs ends with the out-of-fuel result, and none of the three methods falls off its end (result is
+   never None: every path returns or raises) *)
+Theorem C16_tie_gen_terminates : forall (s : st) (o : op), snd (gstep gen_progs s o) <> RFuel.
+Proof. intros s o. rewrite gstep_eq_step. apply step_never_out_of_fuel. Qed.
+Print Assumptions C16_tie_gen_terminates.
+
+Theorem C16_tie_gen_methods_return : forall (s : st) (n : Z) (d : list Z) (c : nat) (f : list (list Z)),
+  result (exec (fuel_of s) gen_receive (env0 n [] c f) s) <> None /\
+  result (exec (fuel_of s) gen_exactly (env0 n [] c f) s) <> None /\
+  result (exec (fuel_of s) gen_until (env0 n d c f) s) <> None.
+Proof. intros s n d c f. rewrite tie_receive, tie_exactly, tie_until. repeat split; discriminate. Qed.
+Print Assumptions C16_tie_gen_methods_return.
